@@ -62,6 +62,7 @@ type CallSpec struct {
 	Shape    int   `json:"shape"`
 	DataSeed int64 `json:"data_seed"`
 	Report   bool  `json:"report,omitempty"`
+	Rescale  int   `json:"rescale,omitempty"` // > 1: before this call every period field of the instance is divided by it (sequential mode)
 }
 
 // OpSpec is one operation of a repository or file history.
@@ -284,7 +285,7 @@ type ReplayFile struct {
 	Case      *Case     `json:"case"`
 	Original  *Case     `json:"original_case,omitempty"`
 	Note      string    `json:"note"`
-	History   []*Case    `json:"history,omitempty"` // C09 process-history part: calls that ran earlier in the process
+	History   []*Case   `json:"history,omitempty"` // C09 process-history part: calls that ran earlier in the process
 }
 
 var raceMode = os.Getenv("VRACE") != ""
